@@ -9,7 +9,7 @@ pub fn run(cfg: &Cfg, rep: &mut Report) {
     if std::env::var("CMRT_NOK").is_err() {
         cmrt::run_k_outc(rep);
         cmrt::run_k_helpers(rep, cfg.seed ^ 0xC07 ^ 0x48);
-        cmrt::run_k(rep, cfg.seed ^ 0xC07 ^ 0x4B, if cfg.tier_thorough { 60_000 } else { 6_000 });
+        cmrt::run_k(rep, cfg.seed ^ 0xC07 ^ 0x4B, if cfg.tier_thorough { 60_000 } else { 6_000 }, Clause::Html);
     }
     let n = std::env::var("CMRT_N").ok().and_then(|v| v.parse().ok()).unwrap_or(if cfg.tier_thorough { 40_000 } else { 12_000 });
     let cases = cmrt::gen_cases(cfg.seed ^ 0xC07, n);
